@@ -320,6 +320,7 @@ X_BitBack(e) ==
 \* ---- C06 ------------------------------------------------------------------
 X_Line(e) == Ok(e) /\ LineAccept(e.r, e.a.moves, e.a.end)
 
+X_LineLong(e) == Ok(e) /\ LineLongAccept(e.r, e.a.end, e.a.off)
 X_LineAxis(e) == Ok(e) /\ LineAxisAccept(e.r, e.a.axis, e.a.n)
 
 \* ---- C14 ------------------------------------------------------------------
@@ -472,6 +473,7 @@ Explains(e) ==
       [] e.op \in {"Line", "LineSp"}   -> X_Line(e)
       [] e.op = "Corridor"             -> X_Corridor(e)
       [] e.op = "LineAxis"             -> X_LineAxis(e)
+      [] e.op = "LineLong"             -> X_LineLong(e)
       [] e.op = "CorridorAxis"         -> X_CorridorAxis(e)
       [] e.op = "CorridorInvalid"      -> X_CorridorInvalid(e)
       [] e.op = "Fit"                  -> X_Fit(e)
@@ -548,6 +550,8 @@ Expected(e) ==
                                          reachable |-> Cardinality(Reachable(Range(e.r), <<0, 0, 0>>))]
     [] e.op = "LineAxis"             -> [n |-> e.a.n, axis |-> e.a.axis, len |-> Len(e.r), missing |-> AxisRun(e.a.axis, e.a.n) \ Range(e.r),
                                          extra |-> Range(e.r) \ AxisRun(e.a.axis, e.a.n)]
+    [] e.op = "LineLong"             -> [len |-> Len(e.r), off |-> Len(e.a.off), hasEnds |-> <<0, 0, 0>> \in Range(e.r) /\ e.a.end \in Range(e.r),
+                                         breaks |-> Cardinality({i \in 2..Len(e.r) : ~\E j \in MaxOf(1, i - 3)..(i - 1) : Adj26(e.r[i], e.r[j])})]
     [] e.op = "CorridorAxis"         -> [lineMissing |-> AxisRun(e.a.axis, e.a.n) \ Range(e.r.rm),
                                          outsideBox |-> Cardinality({p \in Range(e.r.rs) : ~InAxisBox(p, e.a.axis, e.a.n, e.a.fitH, e.a.fitV)})]
     [] e.op = "Corridor"             -> [measuredNotInSkipped |-> Range(e.r.rm) \ Range(e.r.rs),
